@@ -15,6 +15,17 @@ TEXT = {
     "C16": "Audio.tla defines the unique lossless split and the Opus pass-through as TLA+ relations; TLC model-checks them over all (len, mtu) in bounds, enumerates the cases, and validates every recorded call of the real G711/G722/Opus code (trace validation).",
     "C17": "ExtCodecs.tla gives the five bit layouts as TLA+ encoders/decoders (round trip model-checked); TLC enumerates value axes, every input length and receiver histories and validates each recorded Marshal/Unmarshal; the 2^24 domains are covered by axes-exact + harness-counted separability judged = 0.",
     "C19": "VLA.tla encodes/decodes the video-layers-allocation00 layout (DecVLA(EncVLA(v)) = v model-checked); TLC enumerates slot subsets, LEB128 size classes, truncations and invalid values and validates Marshal bytes, decode of the reference encoding into fresh and used receivers, rejections and bounds.",
+    "C06": "Packetizer.tla is the packetizer as a state machine (timestamp as 4-byte tuple, 16-bit sequence counter, abs-send-time id); TLC model-checks every call sequence up to depth 3-4 with a reference payloader (SeqContinuous, TsLaw, AbsOnlyOnMarked), enumerates call sequences x MTU x configuration rows, and validates every recorded Packetize/SkipSamples/GeneratePadding/EnableAbsSendTime call (fragments recorded from the real payloader, injected clock) against the corresponding action.",
+    "C07": "Sequencer.tla (PlusCal) models N clients and a RollOverCount reader with one label per step of the critical section; TLC explores every interleaving (Consecutive, RocExact, Monotone, ReadsLinearizable) and a lock-free specification mutant must violate them; hook events emitted inside the real critical section are replayed as model steps with MOD = 65536 and every client return is matched (witness verified by TLC) to a hook event inside its call window.",
+    "C08": "Payloader.tla states the contract (size law, non-empty law) over a heap of caller-owned buffers; PayloaderMC model-checks the ownership model and its aliasing mutant; TLC enumerates payloader kind x MTU x shaped input x history, the harness overwrites caller buffers between calls and a twin instance is the oracle; TLC validates every recorded call and re-read.",
+    "C09": "Depacketizer.tla states the receiver contract (no panic outcome, fresh = reused for per-packet formats, twin equality for formats that retain fragment state); TLC enumerates short strings exhaustively, warm/cold receivers and edited payloader outputs for sixteen receivers and validates every recorded call; thorough adds the complete 2^24 three-byte sweep for the panic clause.",
+    "C10": "H264.tla contains independent RFC 6184 encoders (single, STAP-A, FU-A with arbitrary cuts), a reference receiver and the payloader contract MatchItems over the pending SPS/PPS state; TLC model-checks that the receiver inverts every encoding plan and that a reference payloader satisfies the contract, enumerates scenarios and validates every recorded Payload call and every real depacketizer output (Annex-B and AVC).",
+    "C11": "VP8.tla encodes the RFC 7741 descriptor and gives a reference decoder (inverse model-checked for all flag combinations); the payloader is a state machine over the running picture id; TLC enumerates descriptors, all truncations and payloader histories and validates every recorded decode and Payload call.",
+    "C12": "VP9.tla encodes the VP9 RTP descriptor (picture id forms, layer indices, reference indices, scalability structure) and the bit-level uncompressed frame header; TLC enumerates all 256 flag bytes x field variants, truncations, headers for all profiles/colour configurations/sizes and payloader histories, and validates every recorded VP9Packet decode, vp9.Header parse and Payload call.",
+    "C13": "AV1.tla gives the aggregation-header grammar, element stitching and the aggregation rules (W, Z/Y chaining, no empty element, size flag cleared, no mixed layers) plus OBU header and LEB128 codecs; TLC model-checks two reference aggregators against the rules, enumerates OBU lists x MTU and validates every recorded payloader output, AV1Depacketizer result, AV1Packet+assembler result, LEB128 and OBU header call.",
+    "C14": "H265.tla contains independent RFC 7798 encoders (single, aggregation, FU, PACI/TSCI, with and without DONL), a reference parser and reassembly; TLC model-checks parser-inverts-encoder, enumerates every packet form with all truncations, header accessor domains and payloader scenarios, and validates every recorded parse, accessor value and Payload call.",
+    "C15": "The lossy channel is enumerated by TLC (every delivered subset of frame A, garbage prefixes, intact frame B); the loss invariant is model-checked on the reference H264 receiver (H264MC!LossInv) and a no-resync specification mutant must violate it; every recorded result of the real H264Packet / AV1Depacketizer after loss is validated against a fresh receiver's result.",
+    "C18": "NtpTime.tla states the tolerance relation on <<sec, nsec>> instants; NtpTimeMC model-checks the 64 s wrap logic on field ticks (recovered for every delay below the modulus, lost at exactly one modulus); TLC enumerates instants around wrap points x delays and offsets up to 2^31 s and validates every recorded CaptureTime / offset / Estimate result.",
     "C20": "Clone is an action of the RtpTrace state machine producing two independent values; TLC enumerates packets x mutation sites x side and validates that the untouched side's observation (projection + Marshal bytes + accessors) never changes.",
 }
 NOTE = "Real code is exercised on TLC-enumerated classes plus seeded random cases (not all Go inputs); TLC, the CommunityModules Json module and the harness projection code are trusted; see DESIGN.md section 4 for the bounds."
